@@ -347,6 +347,45 @@ def run_task(task):
           what='unsupported feature %s at %s accepted by %s' %
           (feat, where, accepted),
           case=dict(kind='injected', feature=feat, where=where, xml=ixml)))
+  # sequence: a model that was accepted once, then gets an unsupported
+  # feature switched on IN PLACE on its compiled MjModel, must be rejected
+  # the next time a pipeline is initialised
+  if not probs:
+    import jax
+    import jax.numpy as jp
+    from brax.io import mjcf
+    sys = mjcf.loads(xml)
+    toggles = [('integrator', lambda m: setattr(m.opt, 'integrator', 1)),
+               ('cone', lambda m: setattr(m.opt, 'cone', 1)),
+               ('impratio', lambda m: setattr(m.opt, 'impratio', 2.0)),
+               ('wind', lambda m: m.opt.wind.__setitem__(0, 1.0))]
+    for feat, fn in toggles:
+      mj = sys.mj_model
+      saved = (mj.opt.integrator, mj.opt.cone, mj.opt.impratio,
+               mj.opt.wind.copy())
+      for name, pipe in _pipelines().items():   # accepted while clean
+        jax.eval_shape(lambda q, qd: pipe.init(sys, q, qd), sys.init_q,
+                       jp.zeros(sys.qd_size()))
+      fn(mj)
+      accepted = []
+      for name, pipe in _pipelines().items():
+        try:
+          jax.eval_shape(lambda q, qd: pipe.init(sys, q, qd), sys.init_q,
+                         jp.zeros(sys.qd_size()))
+          accepted.append(name)
+        except Exception:  # pylint: disable=broad-except
+          pass
+      mj.opt.integrator, mj.opt.cone, mj.opt.impratio = saved[:3]
+      mj.opt.wind[:] = saved[3]
+      res['evaluations'] += 1
+      res['nontrivial'] += 1
+      res['outcomes'].add('in-place:' + feat)
+      if accepted:
+        res['violations'].append(dict(
+            key='C14:accepted-after-in-place-change:%s' % feat,
+            what='feature %s switched on in place on an already accepted '
+            'model is accepted by %s' % (feat, accepted),
+            case=dict(kind='inplace', feature=feat, xml=xml)))
   res['extra']['discarded_by_mujoco'] = discarded
   res['samples'].append(dict(model=phys.describe(spec),
                              features=sorted(res['outcomes'])))
@@ -365,6 +404,10 @@ def replay(rec):
   if c['kind'] == 'clean':
     probs = check_clean(c['spec'], c['xml'])
     return (not probs), c['xml'] + '\n' + '\n'.join(p[1] for p in probs)
+  if c['kind'] == 'inplace':
+    res = run_task(dict(index=0, seed=0, tier='quick'))
+    vs = [v for v in res['violations'] if v['key'] == rec['key']]
+    return (not vs), '\n'.join(v['what'] for v in vs) or 'holds'
   rej, accepted, why = is_rejected(c['xml'])
   return rej, '%s\nfeature %s at %s: %s' % (
       c['xml'], c['feature'], c['where'],
